@@ -333,6 +333,111 @@ pub fn child_seq(args: &[String]) -> i32 {
     0
 }
 
+/// Child: one process with a console appender on stdout AND one on stderr (built in either order); one of the
+/// streams is a terminal, the other a pipe. Colour is decided per stream.
+pub fn child_both(args: &[String]) -> i32 {
+    let stderr_first = args[0] == "1";
+    let mk = |t: Target| ConsoleAppender::builder().encoder(Box::new(PatternEncoder::new("{h({l})} {m}{n}"))).target(t).build();
+    let (first, second) = if stderr_first { (mk(Target::Stderr), mk(Target::Stdout)) } else { (mk(Target::Stdout), mk(Target::Stderr)) };
+    let (out_app, err_app) = if stderr_first { (&second, &first) } else { (&first, &second) };
+    for (app, name) in [(out_app, "to-stdout"), (err_app, "to-stderr"), (out_app, "to-stdout-again")] {
+        if app.append(&Record::builder().level(Level::Error).target("t").args(format_args!("{}", name)).build()).is_err() {
+            return 3;
+        }
+    }
+    0
+}
+
+fn both_case(rep: &mut Report, idx: u64) {
+    let pty_is_stdout = idx % 2 == 0;
+    let stderr_first = (idx / 2) % 2 == 1;
+    let d = json!({"terminal": if pty_is_stdout { "stdout" } else { "stderr" }, "pipe": if pty_is_stdout { "stderr" } else { "stdout" },
+        "built_first": if stderr_first { "the stderr appender" } else { "the stdout appender" }, "colour_variables": "all unset"});
+    rep.case_enumerated(true);
+    let (mut master, slave) = match open_pty() {
+        Ok(x) => x,
+        Err(e) => {
+            rep.inconclusive(&format!("no pty available: {}", e));
+            return;
+        }
+    };
+    let mut cmd = Command::new(crate::childproc::self_exe());
+    cmd.args(["child", "c18both", if stderr_first { "1" } else { "0" }]);
+    for v in ["NO_COLOR", "CLICOLOR", "CLICOLOR_FORCE"] {
+        cmd.env_remove(v);
+    }
+    cmd.stdin(Stdio::null());
+    let fd: OwnedFd = slave.into();
+    if pty_is_stdout {
+        cmd.stdout(Stdio::from(fd)).stderr(Stdio::piped());
+    } else {
+        cmd.stderr(Stdio::from(fd)).stdout(Stdio::piped());
+    }
+    let mut child = match cmd.spawn() {
+        Ok(c) => c,
+        Err(e) => {
+            rep.inconclusive(&format!("cannot spawn: {}", e));
+            return;
+        }
+    };
+    drop(cmd);
+    set_nonblocking(&master);
+    let mut tty_bytes = vec![];
+    let start = Instant::now();
+    let status = loop {
+        drain(&mut master, &mut tty_bytes);
+        match child.try_wait() {
+            Ok(Some(st)) => break st.code(),
+            Ok(None) => {
+                if start.elapsed() > Duration::from_secs(120) {
+                    let _ = child.kill();
+                    let _ = child.wait();
+                    rep.inconclusive("console child (two appenders) timed out (watchdog)");
+                    return;
+                }
+                std::thread::sleep(Duration::from_millis(1));
+            }
+            Err(_) => break None,
+        }
+    };
+    std::thread::sleep(Duration::from_millis(2));
+    drain(&mut master, &mut tty_bytes);
+    let mut pipe_bytes = vec![];
+    if pty_is_stdout {
+        if let Some(mut s) = child.stderr.take() {
+            let _ = s.read_to_end(&mut pipe_bytes);
+        }
+    } else if let Some(mut s) = child.stdout.take() {
+        let _ = s.read_to_end(&mut pipe_bytes);
+    }
+    if status != Some(0) {
+        rep.inconclusive(&format!("console child (two appenders) exited with {:?}", status));
+        return;
+    }
+    rep.count("console_children", 1);
+    rep.count("children_with_two_console_appenders", 1);
+    let coloured = |m: &str| -> Vec<u8> {
+        let mut v = sgr(Some(1), None, Some(true));
+        v.extend_from_slice(b"ERROR\x1b[0m ");
+        v.extend_from_slice(m.as_bytes());
+        v.push(b'\n');
+        v
+    };
+    let plain = |m: &str| format!("ERROR {}\n", m).into_bytes();
+    let (want_tty, want_pipe): (Vec<u8>, Vec<u8>) = if pty_is_stdout {
+        ([coloured("to-stdout"), coloured("to-stdout-again")].concat(), plain("to-stderr"))
+    } else {
+        (coloured("to-stderr"), [plain("to-stdout"), plain("to-stdout-again")].concat())
+    };
+    let show = |b: &[u8]| String::from_utf8_lossy(b).replace('\x1b', "ESC");
+    if tty_bytes != want_tty || pipe_bytes != want_pipe {
+        let sig = if pipe_bytes.contains(&0x1b) { "C18:colour-although-disabled:two-appenders-in-one-process" }
+            else if !tty_bytes.contains(&0x1b) { "C18:colour-missing:two-appenders-in-one-process" } else { "C18:console-bytes-differ:two-appenders-in-one-process" };
+        rep.violation(sig, json!({"case": d, "terminal_received": show(&tty_bytes), "expected_on_terminal": show(&want_tty),
+            "pipe_received": show(&pipe_bytes), "expected_on_pipe": show(&want_pipe)}));
+    }
+}
+
 fn seq_case(rep: &mut Report, stderr_target: bool) {
     let (mut master, slave) = match open_pty() {
         Ok(x) => x,
@@ -586,6 +691,9 @@ pub fn run(rep: &mut Report) {
     if rep.only.is_none() {
         seq_case(rep, false);
         seq_case(rep, true);
+        for k in 0..4 {
+            both_case(rep, k);
+        }
     }
     let n = if rep.tier == "thorough" { 400_000 } else { 40_000 };
     run_cases(rep, "ansi", n, ansi_patterns);
